@@ -30,8 +30,10 @@ Clauses ==
       C18_ListEntriesV3 |-> IsTree => \A ln \in {"l", "m"} : Cnt(obs.lists3, ln) = Cardinality(ListEntries(Vals, ln)),
       \* C16: for accepted names and key values
       C16_NoPanic |-> IsPath => obs.panic = "",
-      C16_RoundTrip |-> (IsPath /\ obs.accepted) => obs.roundtrip,
-      C16_Injective |-> (IsPath /\ obs.accepted) => ~obs.collides,
+      \* rendering, splitting and parsing respect brackets and escapes: for every generated path, accepted by Set or not
+      \* (the key values include the escape-worthy characters ']' '[' '/' '=' and the backslash)
+      C16_RoundTrip |-> IsPath => obs.roundtrip,
+      C16_Injective |-> IsPath => ~obs.collides,
       C16_Parent |-> (IsPath /\ obs.accepted) => obs.parentok,
       \* C17
       C17_NoPanic |-> IsValue => obs.panic = "",
@@ -44,7 +46,7 @@ Clauses ==
       C17_JsonDigitsV3 |-> (IsValue /\ c.val.type \in {"int", "uint", "bool", "string"} /\ ~(c.val.ll /\ c.val.n = 0)) => obs.jsontext3 = obs.expecttext ]
 
 \* the renderings are well-behaved even outside the accepted alphabet (diagnostics only)
-Beyond == IsPath /\ ~obs.accepted /\ (~obs.roundtrip \/ ~obs.parentok \/ obs.collides)
+Beyond == IsPath /\ ~obs.accepted /\ ~obs.parentok
 
 Report ==
     LET bad == {n \in DOMAIN Clauses : ~Clauses[n]} IN
